@@ -147,6 +147,7 @@ Proof.
     destruct nb as [|[?|?|]|]; try discriminate T3.
     destruct rest as [|? ?]; [|discriminate T3]. now exists t, d.
 Qed.
+Print Assumptions ecc_facts.
 
 Theorem groups_ok_cases infos : groups_ok infos = true ->
   (exists nb t d, infos = [(nb, t, d)] /\ group_ok (nb, t, d) = true)
@@ -172,6 +173,7 @@ Proof.
   rewrite forallb_forall in T. specialize (T _ E2). cbv beta iota in T.
   destruct (ec_infos v l) as [infos|]; [now exists infos | discriminate T].
 Qed.
+Print Assumptions capacity_has_ecc.
 
 (* ------------------------------------------------------------------------------------------------ *)
 (* 2. bits <-> codewords                                                                             *)
@@ -270,6 +272,7 @@ Proof.
   - eapply Forall_impl; [|apply toints_elt]. unfold elt. intros; lia.
   - unfold lenZ in *. lia.
 Qed.
+Print Assumptions toints_bits_roundtrip.
 
 Theorem toints_bits_roundtrip_half : forall buff, lenZ buff mod 8 = 4 ->
   toints buff = toints (buff ++ [false; false; false; false])
@@ -287,6 +290,7 @@ Proof.
   - eapply Forall_impl; [|apply toints_elt]. unfold elt. intros; lia.
   - unfold lenZ in *. lia.
 Qed.
+Print Assumptions toints_bits_roundtrip_half.
 
 Lemma bits_of_8_cons x : exists b r, bits_of x 8 = b :: r.
 Proof. unfold bits_of. change (Z.to_nat 8) with 8%nat. cbn [bits_of_aux]. eauto. Qed.
@@ -311,6 +315,7 @@ Proof.
   intros cws fuel H Hf. apply chunks8_bits8; [|exact Hf].
   eapply Forall_impl; [|exact H]. unfold elt. intros; lia.
 Qed.
+Print Assumptions chunks8_codewords.
 
 (* ------------------------------------------------------------------------------------------------ *)
 (* 3. interleaving round trip (for ANY list of blocks)                                               *)
@@ -328,13 +333,13 @@ Lemma interleave_fuel_S f blocks :
   = if forallb isnil blocks then [] else heads blocks ++ interleave_fuel f (tails blocks).
 Proof. reflexivity. Qed.
 
-Definition deal_step (st : list (list Z) * list Z * list (list Z) * list Z) (p : Z * list Z) :=
-  let '(acc', cw', out, ls) := st in
-  let '(n, blk) := p in
-  if 0 <? n then match cw' with
-                 | c :: r => (acc', r, out ++ [blk ++ [c]], ls ++ [n - 1])
-                 | [] => (acc', [], out ++ [blk], ls ++ [0]) end
-  else (acc', cw', out ++ [blk], ls ++ [n]).
+Definition deal_step : list (list Z) * list Z * list (list Z) * list Z -> Z * list Z ->
+                       list (list Z) * list Z * list (list Z) * list Z :=
+  fun '(acc', cw', out, ls) '(n, blk) =>
+    if 0 <? n then match cw' with
+                   | c :: r => (acc', r, out ++ [blk ++ [c]], ls ++ [n - 1])
+                   | [] => (acc', [], out ++ [blk], ls ++ [0]) end
+    else (acc', cw', out ++ [blk], ls ++ [n]).
 
 Lemma deal_S f lens cw acc :
   deal (S f) lens cw acc
@@ -478,6 +483,7 @@ Proof.
   - apply interleave_fuel_enough.
   - now rewrite !map_length.
 Qed.
+Print Assumptions deinterleave_interleave.
 
 Corollary deinterleave_interleave_nil : forall blocks,
   deinterleave (map lenZ blocks) (interleave blocks) = (blocks, []).
@@ -538,3 +544,471 @@ Proof.
 Qed.
 Lemma interleave_single b : interleave [b] = b.
 Proof. unfold interleave. apply interleave_fuel_single. cbn [fold_left]. lia. Qed.
+
+(* ------------------------------------------------------------------------------------------------ *)
+(* 4. the model's blocks                                                                             *)
+(* ------------------------------------------------------------------------------------------------ *)
+(* a data block with its error words: bytes, and a valid Reed-Solomon codeword *)
+Definition blockQ (d e : list Z) : Prop :=
+  Forall elt d /\ Forall elt e /\ syndromes_zero (lenZ e) (d ++ e) = true.
+
+Lemma blocks_of_info_spec gen nd nec : assocZ nec GEN_POLY = Some gen -> 0 <= nd -> 0 <= nec ->
+  forall (n : nat) cw, Forall elt cw -> Z.of_nat n * nd <= lenZ cw ->
+  exists ds es, blocks_of_info n nd nec gen cw = Ok (ds, es, skipn (n * Z.to_nat nd) cw)
+    /\ concat ds = firstn (n * Z.to_nat nd) cw
+    /\ map lenZ ds = repeat nd n /\ map lenZ es = repeat nec n /\ Forall2 blockQ ds es.
+Proof.
+  intros Hg Hnd Hnec. induction n as [|n IH]; intros cw Hcw Hlen.
+  - exists [], []. cbn [blocks_of_info Nat.mul skipn firstn concat map repeat]. repeat split; constructor.
+  - cbn [blocks_of_info].
+    set (block := firstn (Z.to_nat nd) cw).
+    assert (Hb : Forall elt block) by (apply Forall_firstn; exact Hcw).
+    destruct (error_words_total nec gen block Hg Hb) as [e He].
+    destruct (error_words_valid nec gen block e Hg Hb He) as (Le & Ee & Se).
+    rewrite He. cbn [bind].
+    assert (Hlen' : Z.of_nat n * nd + nd <= lenZ cw) by lia.
+    assert (Hn0 : 0 <= Z.of_nat n * nd) by (apply Z.mul_nonneg_nonneg; lia).
+    destruct (IH (skipn (Z.to_nat nd) cw)) as (ds & es & I1 & I2 & I3 & I4 & I5).
+    { apply Forall_skipn; exact Hcw. }
+    { rewrite lenZ_skipn by lia. lia. }
+    rewrite I1. cbn [bind].
+    exists (block :: ds), (e :: es).
+    assert (Lb : lenZ block = nd) by (apply lenZ_firstn; lia).
+    assert (Le' : lenZ e = nec) by (unfold lenZ; lia).
+    cbn [Nat.mul]. split; [|split; [|split; [|split]]].
+    + rewrite skipn_plus. reflexivity.
+    + cbn [concat]. rewrite I2, firstn_plus. reflexivity.
+    + cbn [map repeat]. now rewrite Lb, I3.
+    + cbn [map repeat]. now rewrite Le', I4.
+    + constructor; [|exact I5]. unfold blockQ. rewrite Le'. auto.
+Qed.
+
+(* Table 9 rows expanded into one (total, data) pair per block, as in Decoder.block_shapes *)
+Definition shapes_of (infos : list (Z * Z * Z)) : list (Z * Z) :=
+  flat_map (fun '(nb, tot, dat) => repeat (tot, dat) (Z.to_nat nb)) infos.
+Definition info_ok (g : Z * Z * Z) : Prop :=
+  let '(nb, t, d) := g in 0 <= nb /\ 0 < d < t /\ t <= 255 /\ exists gen, assocZ (t - d) GEN_POLY = Some gen.
+
+Lemma shapes_of_cons nb t d infos :
+  shapes_of ((nb, t, d) :: infos) = repeat (t, d) (Z.to_nat nb) ++ shapes_of infos.
+Proof. reflexivity. Qed.
+
+Lemma map_repeat' {A B} (f : A -> B) x n : map f (repeat x n) = repeat (f x) n.
+Proof. induction n as [|n IH]; cbn [repeat map]; [reflexivity | now rewrite IH]. Qed.
+
+Lemma shapes_data_nonneg infos : Forall info_ok infos -> 0 <= sumZ (map snd (shapes_of infos)).
+Proof.
+  intros H. induction H as [|[[nb t] d] l (Hnb & Hd & _) Hl IHl]; [cbn; lia|].
+  rewrite shapes_of_cons, map_app, map_repeat', sumZ_app, sumZ_repeat. cbn [snd].
+  assert (0 <= Z.of_nat (Z.to_nat nb) * d) by (apply Z.mul_nonneg_nonneg; lia). lia.
+Qed.
+
+Lemma make_blocks_aux_spec : forall infos cw, Forall info_ok infos -> Forall elt cw ->
+  sumZ (map snd (shapes_of infos)) <= lenZ cw ->
+  exists ds es, make_blocks_aux infos cw = Ok (ds, es)
+    /\ concat ds = firstn (Z.to_nat (sumZ (map snd (shapes_of infos)))) cw
+    /\ map lenZ ds = map snd (shapes_of infos)
+    /\ map lenZ es = map (fun '(t, d) => t - d) (shapes_of infos)
+    /\ Forall2 blockQ ds es.
+Proof.
+  induction infos as [|[[nb t] d] infos IH]; intros cw Hok Hcw Hlen.
+  - exists [], []. cbn [make_blocks_aux shapes_of flat_map map sumZ fold_right concat]. repeat split; constructor.
+  - inversion Hok as [|? ? Hg Hrest]; subst. destruct Hg as (Hnb & Hd & Ht & gen & Hgen).
+    rewrite shapes_of_cons, !map_app, !map_repeat' in *. cbn [snd] in *.
+    rewrite sumZ_app, sumZ_repeat in *.
+    pose proof (shapes_data_nonneg infos Hrest) as G.
+    set (S2 := sumZ (map snd (shapes_of infos))) in *.
+    assert (Hn0 : 0 <= Z.of_nat (Z.to_nat nb) * d) by (apply Z.mul_nonneg_nonneg; lia).
+    cbn [make_blocks_aux]. unfold getZ. rewrite Hgen. cbn [bind].
+    destruct (blocks_of_info_spec gen d (t - d) Hgen ltac:(lia) ltac:(lia) (Z.to_nat nb) cw Hcw)
+      as (ds & es & B1 & B2 & B3 & B4 & B5).
+    { lia. }
+    rewrite B1. cbn [bind].
+    set (n1 := (Z.to_nat nb * Z.to_nat d)%nat) in *.
+    assert (Hn1 : Z.of_nat n1 = Z.of_nat (Z.to_nat nb) * d) by (subst n1; lia).
+    destruct (IH (skipn n1 cw)) as (ds2 & es2 & I1 & I2 & I3 & I4 & I5).
+    { exact Hrest. }
+    { apply Forall_skipn; exact Hcw. }
+    { unfold lenZ in *. rewrite skipn_length. lia. }
+    rewrite I1. cbn [bind].
+    exists (ds ++ ds2), (es ++ es2). split; [reflexivity|]. split; [|split; [|split]].
+    + rewrite concat_app, B2, I2.
+      replace (Z.to_nat (Z.of_nat (Z.to_nat nb) * d + S2)) with (n1 + Z.to_nat S2)%nat by lia.
+      now rewrite firstn_plus.
+    + now rewrite map_app, B3, I3.
+    + now rewrite map_app, B4, I4.
+    + apply Forall2_app; assumption.
+Qed.
+
+(* ------------------------------------------------------------------------------------------------ *)
+(* 5. the decoder's block reader on a stream built from blocks                                       *)
+(* ------------------------------------------------------------------------------------------------ *)
+Lemma sumZ_fst_split (l : list (Z * Z)) :
+  sumZ (map fst l) = sumZ (map snd l) + sumZ (map (fun '(t, d) => t - d) l).
+Proof. unfold sumZ. induction l as [|[t d] l IH]; cbn [map fold_right fst snd] in *; lia. Qed.
+Lemma sumZ_map_mul8 {A} (f : A -> Z) l : sumZ (map (fun x => 8 * f x) l) = 8 * sumZ (map f l).
+Proof. unfold sumZ. induction l as [|x l IH]; cbn [map fold_right] in *; lia. Qed.
+
+Lemma fold_shapes_data (shapes : list (Z * Z)) :
+  fold_left (fun a '(t, d) => a + d) shapes 0 = sumZ (map snd shapes).
+Proof. rewrite (fold_left_sumZ _ snd); [lia|]. intros a [t d]; reflexivity. Qed.
+Lemma fold_shapes_ec (shapes : list (Z * Z)) :
+  fold_left (fun a '(t, d) => a + (t - d)) shapes 0 = sumZ (map (fun '(t, d) => t - d) shapes).
+Proof. rewrite (fold_left_sumZ _ (fun '(t, d) => t - d)); [lia|]. intros a [t d]; reflexivity. Qed.
+Lemma fold_shapes_data8 (shapes : list (Z * Z)) :
+  fold_left (fun a '(t, d) => a + 8 * d) shapes 0 = 8 * sumZ (map snd shapes).
+Proof.
+  rewrite (fold_left_sumZ _ (fun x => 8 * snd x)); [rewrite sumZ_map_mul8; lia|]. intros a [t d]; reflexivity.
+Qed.
+Lemma fold_shapes_total8 (shapes : list (Z * Z)) :
+  fold_left (fun a '(t, d) => a + 8 * t) shapes 0 = 8 * sumZ (map fst shapes).
+Proof.
+  rewrite (fold_left_sumZ _ (fun x => 8 * fst x)); [rewrite sumZ_map_mul8; lia|]. intros a [t d]; reflexivity.
+Qed.
+
+Lemma read_blocks_core v l ds es dbits rest :
+  map lenZ ds = map snd (block_shapes v l) ->
+  map lenZ es = map (fun '(t, d) => t - d) (block_shapes v l) ->
+  Forall (Forall elt) ds -> Forall (Forall elt) es ->
+  (if (v =? -3) || (v =? -1) then dbits ++ [false; false; false; false] else dbits) = bits8 (interleave ds) ->
+  read_blocks v l (dbits ++ bits8 (interleave es) ++ rest)
+  = {| rb_data := ds; rb_ec := es; rb_rest := rest |}.
+Proof.
+  intros Hds Hes Eds Ees Hbits.
+  assert (E1 : fold_left (fun a '(t, d) => a + d) (block_shapes v l) 0 = lenZ (interleave ds)).
+  { rewrite fold_shapes_data, <- Hds, sumZ_lenZ_concat, interleave_length. reflexivity. }
+  assert (E2 : fold_left (fun a '(t, d) => a + (t - d)) (block_shapes v l) 0 = lenZ (interleave es)).
+  { rewrite fold_shapes_ec, <- Hes, sumZ_lenZ_concat, interleave_length. reflexivity. }
+  pose proof (interleave_Forall elt ds Eds) as Fd. pose proof (interleave_Forall elt es Ees) as Fe.
+  unfold read_blocks. cbv zeta. rewrite E1, E2, <- Hds, <- Hes.
+  set (N := lenZ (interleave ds)) in *. set (M := lenZ (interleave es)) in *.
+  assert (LN : lenZ (bits8 (interleave ds)) = 8 * N) by apply lenZ_bits8.
+  assert (LM : lenZ (bits8 (interleave es)) = 8 * M) by apply lenZ_bits8.
+  assert (N0 : 0 <= N) by apply lenZ_nonneg. assert (M0 : 0 <= M) by apply lenZ_nonneg.
+  set (short := (v =? -3) || (v =? -1)) in *.
+  assert (Ld : lenZ dbits = if short then N * 8 - 4 else N * 8).
+  { destruct short; rewrite <- Hbits in LN; [rewrite lenZ_app in LN; change (lenZ [false; false; false; false]) with 4 in LN|]; lia. }
+  rewrite (firstn_exact dbits) by (unfold lenZ in Ld; lia).
+  rewrite (skipn_exact dbits) by (unfold lenZ in Ld; lia).
+  rewrite Hbits.
+  rewrite (firstn_exact (bits8 (interleave es))) by (unfold lenZ in LM; lia).
+  rewrite (skipn_exact (bits8 (interleave es))) by (unfold lenZ in LM; lia).
+  rewrite !chunks8_bits8.
+  - rewrite !deinterleave_interleave_nil. reflexivity.
+  - exact Fe.
+  - rewrite app_length. unfold lenZ in *. lia.
+  - exact Fd.
+  - destruct short; unfold lenZ in *; lia.
+Qed.
+
+Lemma bits_of_8_split x : bits_of x 8 = bits_of (Z.shiftr x 4) 4 ++ bits_of x 4.
+Proof.
+  unfold bits_of. change (Z.to_nat 8) with 8%nat. change (Z.to_nat 4) with 4%nat.
+  cbn [bits_of_aux app]. rewrite !Z.shiftr_spec by (cbn; lia). reflexivity.
+Qed.
+
+Lemma bits_of_codewords_bits8 v cws :
+  bits_of_codewords v cws
+  = if (v =? -3) || (v =? -1) then firstn (length (bits8 cws) - 4) (bits8 cws) else bits8 cws.
+Proof. reflexivity. Qed.
+
+Lemma ec_infos_blocks v l infos : ec_infos v (level_code l) = Ok infos ->
+  ec_blocks v l = infos /\ block_shapes v l = shapes_of infos.
+Proof.
+  unfold ec_infos, getZ, getOZ, block_shapes, ec_blocks.
+  destruct (assocZ v ECC) as [row|]; cbn [bind]; [|discriminate].
+  destruct (assocOZ (level_code l) row) as [x|]; [|discriminate]. intros H. injection H as ->.
+  split; reflexivity.
+Qed.
+
+Lemma groups_info_ok infos : groups_ok infos = true -> Forall info_ok infos.
+Proof.
+  intros H. destruct (groups_ok_cases infos H) as [(nb & t & d & -> & G)|(nb1 & nb2 & t & d & -> & G1 & G2)].
+  - apply group_ok_spec in G. destruct G as (? & ? & ? & ?). constructor; [|constructor].
+    unfold info_ok. repeat split; try lia; assumption.
+  - apply group_ok_spec in G1, G2. destruct G1 as (? & ? & ? & ?), G2 as (? & ? & ? & ?).
+    constructor; [|constructor; [|constructor]]; unfold info_ok; repeat split; try lia; assumption.
+Qed.
+
+Lemma shapes_data_codewords infos : Forall info_ok infos ->
+  sumZ (map snd (shapes_of infos)) = data_codewords infos.
+Proof.
+  unfold data_codewords. intros H. induction H as [|[[nb t] d] l (Hnb & _) Hl IHl]; [reflexivity|].
+  rewrite shapes_of_cons, map_app, map_repeat', sumZ_app, sumZ_repeat, IHl. unfold sumZ. cbn [snd map fold_right].
+  rewrite Z2Nat.id by lia. reflexivity.
+Qed.
+
+Lemma shapes_bounds infos : Forall info_ok infos -> Forall (fun '(t, d) => 0 < d < t /\ t <= 255) (shapes_of infos).
+Proof.
+  intros H. induction H as [|[[nb t] d] l (Hnb & Hd & Ht & _) Hl IHl]; [constructor|].
+  rewrite shapes_of_cons. apply Forall_app. split; [|exact IHl].
+  apply Forall_forall. intros x Hx. apply repeat_spec in Hx. subst x. lia.
+Qed.
+
+Lemma remainder_bits_nonneg v : 0 <= remainder_bits v <= 7.
+Proof.
+  unfold remainder_bits.
+  destruct (memZ v [2; 3; 4; 5; 6]); [lia|].
+  destruct (memZ v [14; 15; 16; 17; 18; 19; 20; 28; 29; 30; 31; 32; 33; 34]); [lia|].
+  destruct (memZ v [21; 22; 23; 24; 25; 26; 27]); lia.
+Qed.
+
+Lemma Forall2_blockQ_elt ds es : Forall2 blockQ ds es ->
+  Forall (Forall elt) ds /\ Forall (Forall elt) es
+  /\ Forall (fun '(d, e) => syndromes_zero (lenZ e) (d ++ e) = true) (combine ds es).
+Proof.
+  intros H. induction H as [|d e ds es (Q1 & Q2 & Q3) H IH]; [repeat split; constructor|].
+  destruct IH as (I1 & I2 & I3). cbn [combine]. repeat split; constructor; assumption.
+Qed.
+
+(* ------------------------------------------------------------------------------------------------ *)
+(* 6. the data codewords taken from the bit stream                                                   *)
+(* ------------------------------------------------------------------------------------------------ *)
+(* only the first N codewords (the first cap bits) of the stream matter *)
+Lemma data_codewords_of_buff (short : bool) (N : Z) (buff : list bool) :
+  0 <= N ->
+  8 * N - (if short then 4 else 0) <= lenZ buff ->
+  (short = true -> lenZ buff = 8 * N - 4) ->
+  N <= lenZ (toints buff)
+  /\ bits8 (firstn (Z.to_nat N) (toints buff))
+     = firstn (Z.to_nat (8 * N - (if short then 4 else 0))) buff
+       ++ (if short then [false; false; false; false] else []).
+Proof.
+  intros HN Hle Hs. pose proof (lenZ_nonneg buff) as Hb0. destruct short.
+  - specialize (Hs eq_refl).
+    assert (E : toints buff = toints (buff ++ [false; false; false; false])).
+    { apply (toints_half (Z.to_nat (N - 1))). unfold lenZ in *. lia. }
+    destruct (toints_whole (Z.to_nat N) (buff ++ [false; false; false; false])) as [W1 W2].
+    { rewrite app_length. cbn [length]. unfold lenZ in *. lia. }
+    rewrite E. split; [unfold lenZ; lia|].
+    rewrite !firstn_all2 by (unfold lenZ in *; lia). exact W1.
+  - set (a := firstn (Z.to_nat (8 * N)) buff). set (b := skipn (Z.to_nat (8 * N)) buff).
+    assert (La : length a = (8 * Z.to_nat N)%nat).
+    { subst a. rewrite firstn_length. unfold lenZ in *. lia. }
+    assert (E : toints buff = toints a ++ toints b).
+    { rewrite <- (toints_app (Z.to_nat N) a b La). f_equal. symmetry. apply firstn_skipn. }
+    destruct (toints_whole (Z.to_nat N) a La) as [W1 W2].
+    rewrite E. split.
+    + unfold lenZ. rewrite app_length. lia.
+    + rewrite firstn_exact by exact W2. rewrite W1, app_nil_r. subst a. do 2 f_equal. lia.
+Qed.
+
+(* ------------------------------------------------------------------------------------------------ *)
+(* 7. main lemma                                                                                     *)
+(* ------------------------------------------------------------------------------------------------ *)
+Lemma is_m1_m3_short v : is_m1_m3 v = ((v =? -3) || (v =? -1)).
+Proof. reflexivity. Qed.
+
+Lemma final_message_blocks : forall version lvl infos buff tail,
+  ec_infos version (level_code lvl) = Ok infos ->
+  iso_capacity version lvl <= lenZ buff ->
+  (is_m1_m3 version = true -> lenZ buff = iso_capacity version lvl) ->
+  exists ds es final,
+    make_blocks infos buff = Ok (ds, es)
+    /\ make_final_message version (level_code lvl) buff = Ok final
+    /\ capacity version (level_code lvl) = Ok (iso_capacity version lvl)
+    /\ concat ds = firstn (Z.to_nat (sumZ (map snd (block_shapes version lvl)))) (toints buff)
+    /\ bits8 (concat ds) = firstn (Z.to_nat (iso_capacity version lvl)) buff
+                           ++ (if is_m1_m3 version then [false; false; false; false] else [])
+    /\ map lenZ ds = map snd (block_shapes version lvl)
+    /\ map lenZ es = map (fun '(t, d) => t - d) (block_shapes version lvl)
+    /\ Forall2 blockQ ds es
+    /\ read_blocks version lvl (final ++ tail)
+       = {| rb_data := ds; rb_ec := es; rb_rest := zeros (remainder_bits version) ++ tail |}
+    /\ lenZ final = fold_left (fun a '(t, d) => a + 8 * t) (block_shapes version lvl) 0
+                    - (if is_m1_m3 version then 4 else 0) + remainder_bits version.
+Proof.
+  intros version lvl infos buff tail Hinfos Hle Hexact.
+  destruct (ecc_facts _ _ _ Hinfos) as (Hv & Hg & Hcap & Hmicro).
+  pose proof (groups_info_ok _ Hg) as Hok.
+  destruct (ec_infos_blocks _ _ _ Hinfos) as [_ Hshapes].
+  pose proof (shapes_data_nonneg infos Hok) as HN0.
+  pose proof (shapes_data_codewords infos Hok) as HNd.
+  assert (Hic : iso_capacity version lvl
+                = 8 * sumZ (map snd (shapes_of infos)) - (if is_m1_m3 version then 4 else 0)).
+  { unfold iso_capacity. rewrite fold_shapes_data8, Hshapes, <- is_m1_m3_short. reflexivity. }
+  rewrite fold_shapes_total8, sumZ_fst_split, Hshapes. rewrite Hic in *. rewrite <- HNd in Hcap.
+  set (N := sumZ (map snd (shapes_of infos))) in *.
+  set (M := sumZ (map (fun '(t, d) => t - d) (shapes_of infos))).
+  destruct (data_codewords_of_buff (is_m1_m3 version) N buff HN0 Hle) as (HN & Hbits).
+  { intros Es. rewrite Es in Hexact. apply Hexact. reflexivity. }
+  destruct (make_blocks_aux_spec infos (toints buff) Hok (toints_elt _) HN) as (ds & es & M1 & M2 & M3 & M4 & M5).
+  fold N in M2. rewrite <- M2 in Hbits.
+  destruct (Forall2_blockQ_elt _ _ M5) as (Eds & Ees & _).
+  assert (Les : lenZ (bits8 (interleave es)) = 8 * M).
+  { rewrite lenZ_bits8, interleave_length, <- sumZ_lenZ_concat, M4. reflexivity. }
+  assert (Lds : lenZ (concat ds) = N) by (rewrite <- sumZ_lenZ_concat, M3; reflexivity).
+  pose proof (remainder_bits_nonneg version) as Hrem.
+  assert (Lz : lenZ (zeros (remainder_bits version)) = remainder_bits version).
+  { unfold zeros, lenZ. rewrite repeat_length. lia. }
+  unfold make_final_message. change (flat_map (fun x : Z => bits_of x 8)) with bits8. rewrite Hinfos. cbn [bind]. unfold make_blocks at 2. rewrite M1. cbn [bind].
+  destruct (is_m1_m3 version) eqn:Es.
+  - (* M1 / M3: a single block, the last data codeword has four bits *)
+    assert (Hv0 : version <= 0).
+    { unfold is_m1_m3, VERSION_M1, VERSION_M3 in Es. lia. }
+    destruct (Hmicro Hv0) as (t & d & ->).
+    change (shapes_of [(1, t, d)]) with [(t, d)] in *. cbn [map snd] in M3.
+    destruct ds as [|b0 [|? ?]]; try discriminate M3. injection M3 as Lb0.
+    cbn [concat] in *. rewrite app_nil_r in *.
+    pose proof (Forall_inv Hok) as Hg1. destruct Hg1 as (_ & Hd & _).
+    specialize (Hexact eq_refl).
+    rewrite firstn_all2 in Hbits by (unfold lenZ in *; lia).
+    destruct (rev b0) as [|last front] eqn:Er.
+    { exfalso. apply (f_equal (@rev Z)) in Er. rewrite rev_involutive in Er. cbn [rev] in Er. rewrite Er in Lb0.
+      change (lenZ (@nil Z)) with 0 in Lb0. lia. }
+    assert (Eb0 : b0 = rev front ++ [last]).
+    { apply (f_equal (@rev Z)) in Er. rewrite rev_involutive in Er. exact Er. }
+    assert (Esplit : bits8 b0 = (bits8 (rev front) ++ bits_of (Z.shiftr last 4) 4) ++ bits_of last 4).
+    { rewrite Eb0, bits8_app. unfold bits8 at 2. cbn [flat_map]. rewrite app_nil_r, bits_of_8_split.
+      now rewrite app_assoc. }
+    destruct (app_inj_len (bits8 (rev front) ++ bits_of (Z.shiftr last 4) 4) buff
+                          (bits_of last 4) [false; false; false; false]) as [D1 D2].
+    { pose proof (f_equal (@length bool) Hbits) as HL. rewrite Esplit, !app_length in HL.
+      rewrite !app_length. rewrite (bits_of_length last 4) in HL. cbn [length] in HL.
+      change (Z.to_nat 4) with 4%nat in HL. lia. }
+    { rewrite <- Esplit. exact Hbits. }
+    exists [b0], es. eexists. split; [exact M1|]. split; [reflexivity|].
+    split; [exact Hcap|]. split; [cbn [concat]; rewrite app_nil_r; exact M2|].
+    split; [cbn [concat]; rewrite app_nil_r, firstn_all2 by (unfold lenZ in *; lia); exact Hbits|].
+    split; [cbn [map snd]; now rewrite Lb0|]. split; [exact M4|].
+    split; [exact M5|]. split.
+    + rewrite interleave_single, <- !app_assoc.
+      rewrite (app_assoc (bits8 (rev front))).
+      apply read_blocks_core.
+      * rewrite Hshapes. cbn [map snd]. now rewrite Lb0.
+      * rewrite Hshapes. exact M4.
+      * exact Eds.
+      * exact Ees.
+      * rewrite <- is_m1_m3_short, Es, interleave_single, Esplit, D2. reflexivity.
+    + rewrite interleave_single, app_assoc, D1, !lenZ_app, Les, Lz. lia.
+  - exists ds, es. eexists. split; [exact M1|]. split; [reflexivity|].
+    split; [exact Hcap|]. split; [exact M2|]. split; [exact Hbits|].
+    split; [exact M3|]. split; [exact M4|].
+    split; [exact M5|]. split.
+    + cbn [app]. rewrite <- !app_assoc.
+      apply read_blocks_core.
+      * rewrite Hshapes. exact M3.
+      * rewrite Hshapes. exact M4.
+      * exact Eds.
+      * exact Ees.
+      * rewrite <- is_m1_m3_short, Es. reflexivity.
+    + cbn [app]. rewrite !lenZ_app, Les, Lz, lenZ_bits8, interleave_length, Lds. lia.
+Qed.
+
+(* ------------------------------------------------------------------------------------------------ *)
+(* 8. the theorems                                                                                   *)
+(* ------------------------------------------------------------------------------------------------ *)
+(* the capacity table is Table 9 in bits: SYMBOL_CAPACITY[v][l] = 8 * (data codewords) - (4 for M1/M3) *)
+Theorem capacity_iso : forall version lvl cap,
+  capacity version (level_code lvl) = Ok cap -> cap = iso_capacity version lvl.
+Proof.
+  intros version lvl cap Hc. destruct (capacity_has_ecc _ _ _ Hc) as [infos Hinfos].
+  destruct (ecc_facts _ _ _ Hinfos) as (_ & Hg & Hcap & _).
+  destruct (ec_infos_blocks _ _ _ Hinfos) as [_ Hshapes].
+  rewrite Hcap in Hc. injection Hc as <-.
+  unfold iso_capacity. rewrite fold_shapes_data8, Hshapes, shapes_data_codewords, <- is_m1_m3_short by
+    (apply groups_info_ok; exact Hg). reflexivity.
+Qed.
+Print Assumptions capacity_iso.
+
+Lemma shapes_total_codewords infos : Forall info_ok infos ->
+  sumZ (map fst (shapes_of infos)) = total_codewords infos.
+Proof.
+  unfold total_codewords. intros H. induction H as [|[[nb t] d] l (Hnb & _) Hl IHl]; [reflexivity|].
+  rewrite shapes_of_cons, map_app, map_repeat', sumZ_app, sumZ_repeat, IHl. unfold sumZ. cbn [fst map fold_right].
+  rewrite Z2Nat.id by lia. reflexivity.
+Qed.
+
+Theorem read_blocks_of_final_message : forall version error lvl buff cap final tail,
+  -3 <= version <= 40 -> level_code lvl = error ->
+  capacity version error = Ok cap ->
+  cap <= lenZ buff ->
+  (is_m1_m3 version = true -> lenZ buff = cap) ->
+  make_final_message version error buff = Ok final ->
+  let rb := read_blocks version lvl (final ++ tail) in
+  let shapes := block_shapes version lvl in
+  let ndata := fold_left (fun a '(t, d) => a + d) shapes 0 in
+  (* the capacity is the one of Table 9 *)
+  cap = iso_capacity version lvl
+  (* the decoder recovers exactly the model's data blocks and error blocks *)
+  /\ (exists infos, ec_infos version error = Ok infos
+                    /\ make_blocks infos buff = Ok (rb_data rb, rb_ec rb))
+  (* the data codewords come back; only the first [ndata] codewords / [cap] bits of buff are used *)
+  /\ concat (rb_data rb) = firstn (Z.to_nat ndata) (toints buff)
+  /\ flat_map (fun x => bits_of x 8) (concat (rb_data rb))
+     = firstn (Z.to_nat cap) buff ++ (if is_m1_m3 version then [false; false; false; false] else [])
+  /\ bits_of_codewords version (concat (rb_data rb)) = firstn (Z.to_nat cap) buff
+  (* C03: every block is a valid Reed-Solomon codeword *)
+  /\ Forall (fun '(d, e) => syndromes_zero (lenZ e) (d ++ e) = true) (combine (rb_data rb) (rb_ec rb))
+  (* layout of Table 9 *)
+  /\ map lenZ (rb_data rb) = map snd shapes
+  /\ map lenZ (rb_ec rb) = map (fun '(t, d) => t - d) shapes
+  /\ Forall (fun '(t, d) => 0 < d < t /\ t <= 255) shapes
+  /\ Forall (Forall (fun x => 0 <= x <= 255)) (rb_data rb)
+  /\ Forall (Forall (fun x => 0 <= x <= 255)) (rb_ec rb)
+  (* remainder bits are zero, nothing else is consumed *)
+  /\ rb_rest rb = repeat false (Z.to_nat (remainder_bits version)) ++ tail.
+Proof.
+  intros version error lvl buff cap final tail _ <- Hc Hle Hexact Hfinal.
+  pose proof (capacity_iso _ _ _ Hc) as ->.
+  destruct (capacity_has_ecc _ _ _ Hc) as [infos Hinfos].
+  destruct (final_message_blocks version lvl infos buff tail Hinfos Hle Hexact)
+    as (ds & es & final' & F1 & F2 & _ & F4 & F5 & F6 & F7 & F8 & F9 & _).
+  rewrite F2 in Hfinal. injection Hfinal as ->.
+  cbv zeta. rewrite F9. cbn [rb_data rb_ec rb_rest].
+  destruct (Forall2_blockQ_elt _ _ F8) as (Eds & Ees & Hsyn).
+  destruct (ecc_facts _ _ _ Hinfos) as (_ & Hg & _ & _).
+  destruct (ec_infos_blocks _ _ _ Hinfos) as [_ Hshapes].
+  assert (Helt : forall bs, Forall (Forall elt) bs -> Forall (Forall (fun x => 0 <= x <= 255)) bs).
+  { intros bs Hbs. eapply Forall_impl; [|exact Hbs]. intros b Hb.
+    eapply Forall_impl; [|exact Hb]. unfold elt. intros; lia. }
+  split; [reflexivity|]. split; [exists infos; split; assumption|].
+  split; [rewrite fold_shapes_data; exact F4|]. split; [exact F5|]. split.
+  { rewrite bits_of_codewords_bits8, F5, <- is_m1_m3_short. destruct (is_m1_m3 version).
+    - rewrite app_length. cbn [length].
+      replace (length (firstn (Z.to_nat (iso_capacity version lvl)) buff) + 4 - 4)%nat
+        with (length (firstn (Z.to_nat (iso_capacity version lvl)) buff)) by lia.
+      apply firstn_exact. reflexivity.
+    - apply app_nil_r. }
+  split; [exact Hsyn|]. split; [exact F6|]. split; [exact F7|].
+  split; [rewrite Hshapes; apply shapes_bounds, groups_info_ok; exact Hg|].
+  split; [apply Helt; exact Eds|]. split; [apply Helt; exact Ees|]. reflexivity.
+Qed.
+Print Assumptions read_blocks_of_final_message.
+
+Theorem make_final_message_total : forall version error lvl buff cap,
+  -3 <= version <= 40 -> level_code lvl = error ->
+  capacity version error = Ok cap ->
+  cap <= lenZ buff ->
+  (is_m1_m3 version = true -> lenZ buff = cap) ->
+  exists final infos,
+    make_final_message version error buff = Ok final
+    /\ ec_infos version error = Ok infos
+    /\ lenZ final = fold_left (fun a '(t, d) => a + 8 * t) (block_shapes version lvl) 0
+                    - (if is_m1_m3 version then 4 else 0) + remainder_bits version
+    /\ lenZ final = 8 * total_codewords infos - (if is_m1_m3 version then 4 else 0) + remainder_bits version.
+Proof.
+  intros version error lvl buff cap _ <- Hc Hle Hexact.
+  pose proof (capacity_iso _ _ _ Hc) as ->.
+  destruct (capacity_has_ecc _ _ _ Hc) as [infos Hinfos].
+  destruct (final_message_blocks version lvl infos buff [] Hinfos Hle Hexact)
+    as (ds & es & final & _ & F2 & _ & _ & _ & _ & _ & _ & _ & F10).
+  exists final, infos. split; [exact F2|]. split; [exact Hinfos|]. split; [exact F10|].
+  rewrite F10, fold_shapes_total8.
+  destruct (ecc_facts _ _ _ Hinfos) as (_ & Hg & _ & _).
+  destruct (ec_infos_blocks _ _ _ Hinfos) as [_ Hshapes].
+  rewrite Hshapes, shapes_total_codewords by (apply groups_info_ok; exact Hg). reflexivity.
+Qed.
+Print Assumptions make_final_message_total.
+
+(* The exactness hypothesis for M1/M3 is necessary: with surplus bits (28 >= 20, 28 mod 8 = 4) the model
+   computes the error words over the full third codeword 11111111 but emits only its upper half, so the
+   block read back (255, 255, 240) is not a Reed-Solomon codeword and differs from the model's block. *)
+Lemma m1_surplus_counterexample :
+  let buff := repeat true 28 in
+  capacity (-3) None = Ok 20 /\ lenZ buff mod 8 = 4 /\
+  exists final, make_final_message (-3) None buff = Ok final /\
+    let rb := read_blocks (-3) None final in
+    rb_data rb = [[255; 255; 240]] /\ firstn 3 (toints buff) = [255; 255; 255] /\
+    forallb (fun '(d, e) => syndromes_zero (lenZ e) (d ++ e)) (combine (rb_data rb) (rb_ec rb)) = false.
+Proof. vm_compute. split; [reflexivity|]. split; [reflexivity|]. eexists. repeat split; reflexivity. Qed.
